@@ -319,6 +319,29 @@ def run(r):
         os.makedirs(root)
         write_real_tree(root, rnd)
         cases.append({"id": 3000, "ops": [{"op": "scan", "path": root}, {"op": "cli"}, {"op": "cycles"}, {"op": "dump"}]})
+        # documents analysed WITHOUT a scan on a real directory: the modules their conftest star-imports / names in
+        # pytest_plugins exist on disk but were never analysed (a request racing the background scan): every query on
+        # them runs with whatever the import walk does about such modules, under the watchdog and the lock log
+        late = os.path.join(base, "late")
+        os.makedirs(os.path.join(late, "pkg"))
+        fxs = "import pytest\n\n" + "".join("@pytest.fixture\ndef %s():\n    return 1\n\n" % x for x in ["fx_late"] + ["late_%d" % k for k in range(60)])
+        files_late = {os.path.join(late, "conftest.py"): "import pytest\n\n@pytest.fixture\ndef fx_late():\n    return 0\n",
+                      os.path.join(late, "pkg", "late_mod.py"): fxs, os.path.join(late, "pkg", "late_plug.py"): fxs.replace("late_", "plug_"),
+                      os.path.join(late, "pkg", "conftest.py"): "from .late_mod import *\npytest_plugins = [\"late_plug\"]\n",
+                      os.path.join(late, "pkg", "test_late.py"): "def test_l(fx_late, late_3, plug_5):\n    pass\n"}
+        for q, tt in files_late.items():
+            open(q, "w").write(tt)
+        lp, lt = os.path.join(late, "pkg", "test_late.py"), os.path.join(late, "pkg", "conftest.py")
+        ops_late = [{"op": "analyze", "path": os.path.join(late, "conftest.py"), "text": files_late[os.path.join(late, "conftest.py")]},
+                    {"op": "analyze", "path": lt, "text": files_late[lt]}, {"op": "analyze", "path": lp, "text": files_late[lp]}]
+        for col in (11, 20, 28):
+            for q in ("goto", "goto_or_def", "name_at"):
+                ops_late.append({"op": q, "path": lp, "line": 0, "col": col})
+        for q in ("available", "imported", "undeclared"):
+            ops_late.append({"op": q, "path": lp})
+        ops_late += [{"op": "imported", "path": lt}, {"op": "closest", "path": lp, "name": "fx_late"}, {"op": "is_imported", "path": lt, "name": "late_3"},
+                     {"op": "analyze", "path": lp, "text": files_late[lp] + "\n"}, {"op": "cycles"}, {"op": "cli"}]
+        cases.append({"id": 3001, "ops": ops_late})
         inp, outp = os.path.join(base, "lib.in.json"), os.path.join(base, "lib.out.json")
         json.dump(cases, open(inp, "w"))
         rc, out = core.sh([h4, inp, outp], timeout=1800, env={"DASHMAP_LOCKLOG": lib_log, "H1_CASE_TIMEOUT_S": "60"})
